@@ -14,6 +14,8 @@
  *   K <slot> <path> <k> <rs> <rns> <ms> <mns> <112 hex digits>   clockbound_now on an open slot; while the call's k-th read
  *                                         of a clock (0-based, any clock) is in progress a complete publication of the given
  *                                         56-byte record lands in <path> (generation made odd, record stored, generation + 2)
+ *   E <errno>                             from now on errno holds this value when clockbound_open is entered by an O command
+ *                                         (what an earlier, unrelated call of the thread left there)
  *   R <slot>                              clockbound_close the slot
  *   M                                     print the number of open file descriptors and of memory mappings
  *   F <call> <nth> <errno>                the nth (0-based) open (0) / read (1) / mmap (2) made from now on fails once
@@ -30,6 +32,7 @@
 #include <stddef.h>
 #include <sys/mman.h>
 #include <stdio.h>
+#include <stdlib.h>
 #include <string.h>
 #include <sys/syscall.h>
 #include <time.h>
@@ -41,6 +44,7 @@ static struct timespec v_real, v_mono;
 static int v_on = 0, v_fail_errno = 0, v_fail_clk = -1;
 static int reads_real = 0, reads_mono = 0, first_read = -1;
 
+static int pre_errno = 0;
 static int k_at = -1;
 static char k_path[4096];
 static unsigned char k_rec[56];
@@ -192,6 +196,12 @@ int main(void) {
                         fflush(stdout);
                         continue;
                 }
+                if (line[0] == 'E') {
+                        pre_errno = atoi(line + 2);
+                        printf("errno set\n");
+                        fflush(stdout);
+                        continue;
+                }
                 if (line[0] == 'M') {
                         int fds = 0, maps = 0, ch;
                         DIR *d = opendir("/proc/self/fd");
@@ -298,6 +308,7 @@ int main(void) {
                         clockbound_err err;
                         memset(&err, 0x5a, sizeof err);
                         v_on = 0;
+                        if (line[0] == 'O') errno = pre_errno;
                         clockbound_ctx *ctx = clockbound_open(path, &err);
                         f_call = -1;
                         if (!ctx) {
